@@ -153,6 +153,19 @@ def check_binary(ctx, case):
     probs = []
     a = build_corr(case['a'])
     y = partner_of(case['p'])
+    if case.get('tdiff'):
+        # partners of different temporal extent cannot be combined timeslice by timeslice: refused for every operation,
+        # in both orders, whatever the matrix dimensions are
+        ctx.count('different-T')
+        for l_, r_, od_ in ((a, y, 'l'), (y, a, 'r')):
+            try:
+                res_ = apply_op(case['op'], l_, r_)
+            except Exception:
+                continue
+            probs.append(('violation', 'accepts-different-T', '%s of correlators with T=%d and T=%d (N=%d, %d) returned T=%s' % (
+                case['op'], l_.T, r_.T, l_.N, r_.N, getattr(res_, 'T', '?'))))
+            break
+        return probs
     op, order, pk = case['op'], case['order'], case['p']['kind']
     cplx = bool(case['a'].get('cplx')) or (pk == 'corr' and bool(case['p']['corr'].get('cplx')))
     sa, sy = snap_obs(a), snap_obs(y)
@@ -603,6 +616,13 @@ def gen_case(ctx):
         if pk == 'corr':
             nb = N if (op in ('add', 'sub') or rng.random() < 0.6) else 1
             p['corr'] = gen_corr(rng, T=T, N=nb, cplx=(cplx and op != 'div' and rng.random() < 0.5))
+            if op != 'pow' and rng.random() < 0.15:
+                p['corr'] = gen_corr(rng, T=max(2, T + rng.choice([1, -1, 2])), N=rng.choice([1, nb, N]))
+                p['corr'].pop('prange', None)
+                a.pop('prange', None)
+                case_tdiff = len(p['corr']['vals']) != T
+                if case_tdiff:
+                    return {'kind': 'binary', 'a': a, 'op': op, 'order': order, 'p': p, 'tdiff': True}
         if pk == 'ndarray':
             p['arr'] = [round(rng.uniform(0.5, 2.0), 3) for _ in range(T)]
         return {'kind': 'binary', 'a': a, 'op': op, 'order': order, 'p': p}
